@@ -180,17 +180,30 @@ pub fn collect_calls(p: &Program) -> HashMap<usize, CallName> {
 
 /// Fill the probe literals by a first interpretation under the primary witness assignment.
 pub fn prepare(cx: &mut Ctx, g: Generated, rng: &mut Rng, style: &Style) -> Result<Prepared, String> {
+    prepare_with(cx, g, rng, style, None, None)
+}
+
+pub fn prepare_with(
+    cx: &mut Ctx,
+    g: Generated,
+    rng: &mut Rng,
+    style: &Style,
+    primary: Option<WMap>,
+    args: Option<WMap>,
+) -> Result<Prepared, String> {
     let mut prog = g.prog;
-    let primary: WMap = g
-        .witnesses
-        .iter()
-        .map(|(n, t)| (n.clone(), random_val(t, rng)))
-        .collect();
-    let args: WMap = g
-        .params
-        .iter()
-        .map(|(n, t)| (n.clone(), random_val(t, rng)))
-        .collect();
+    let primary: WMap = primary.unwrap_or_else(|| {
+        g.witnesses
+            .iter()
+            .map(|(n, t)| (n.clone(), random_val(t, rng)))
+            .collect()
+    });
+    let args: WMap = args.unwrap_or_else(|| {
+        g.params
+            .iter()
+            .map(|(n, t)| (n.clone(), random_val(t, rng)))
+            .collect()
+    });
     if !prog.holes.is_empty() {
         let mut it = Interp::new(&prog, &primary, &args, &mut cx.jets, &cx.golden)
             .map_err(|e| format!("interp setup: {e:?}"))?;
